@@ -197,6 +197,89 @@ let run_dump_raw path (args : string) : string =
   (try while true do Buffer.add_channel b ic 1 done with End_of_file -> ());
   ignore (Unix.close_process_in ic); Buffer.contents b
 
+(* ---- the memory-level model (model/IterMem.v, theorems T03m) against the real addresses --------------------
+   An interleaved history over up to four iterators of one reader is run on the extracted machine [mrun] and on the
+   implementation.  Per successful next: the same entry; where the model says the VALUE lives in the mapping at offset
+   off, the real pointer is mapping base + off exactly, and where it says a heap buffer, the real pointer lies outside
+   the mapping; the KEY always lives in a heap buffer.  After every operation, what each OTHER iterator was handed by
+   its last next is re-read at the real addresses and must be unchanged (T03m_stability). *)
+external c_last_mmap : unit -> nativeint * int = "vp_last_mmap"
+let addr_check acc st ~props ~(table_json : unit -> json) ~(src : nativeint) ~(rd : reader) ~(es : (string * string) array) =
+  let (base, maplen) = c_last_mmap () in
+  let nkeys = Array.length es in
+  let some_key () = if nkeys = 0 || rint st 5 = 0 then rbytes st (rint st 3) else (let k = fst es.(rint st nkeys) in if rint st 4 = 0 then k ^ "\000" else k) in
+  let nops = rrange st 8 40 in
+  let created = ref 0 in
+  let ops = List.init nops (fun i ->
+    if i < 2 || (!created < 4 && rint st 8 = 0) then begin
+      incr created;
+      (match rint st 4 with
+       | 0 -> (`New (Iter), MNew (KIter, [], []))
+       | 1 -> let k = some_key () in (`New (Get k), MNew (KGet, nl_of_string k, nl_of_string k))
+       | 2 -> let k = some_key () in let p = String.sub k 0 (min (String.length k) (rint st 4)) in (`New (Prefix p), MNew (KPrefix, nl_of_string p, nl_of_string p))
+       | _ -> let a = some_key () and b = some_key () in let (a, b) = if compare a b <= 0 then (a, b) else (b, a) in
+         (`New (Range (a, b)), MNew (KRange, nl_of_string a, nl_of_string b)))
+    end else begin
+      let i = rint st !created in
+      (match rint st 10 with
+       | 0 -> (`Free i, MFree (nat_of_int i))
+       | 1 | 2 -> let k = some_key () in (`Seek (i, k), MSeek (nat_of_int i, nl_of_string k))
+       | _ -> (`Next i, MNext (nat_of_int i)))
+    end) in
+  (* in-place or moving rewrites of the key buffers: both are legal behaviours of realloc; the addresses of heap
+     buffers are not compared, so either policy must agree with the implementation on what IS compared *)
+  let pol = (let b = rbool st in fun (_ : mem) (_ : nat) (_ : n list) -> b) in
+  bump acc "address_level_histories";
+  match mrun dec pol rd (ms_init rd) (List.map snd ops) with
+  | MFault | MErr -> fail acc ~kind:"model_mismatch" ~what:(props ^ " the memory-level iterator model faults on a history (T03m_refinement says it cannot)") (table_json ())
+  | MOk (_, mouts) ->
+    let impl = ref [||] in                      (* slot -> implementation iterator (0n: NULL or destroyed) *)
+    let held : (int * (nativeint * int * nativeint * int * string * string)) list ref = ref [] in
+    let in_map p = Nativeint.compare p base >= 0 && Nativeint.compare p (Nativeint.add base (Nativeint.of_int maplen)) < 0 in
+    let bad = ref None in
+    let note s = if !bad = None then bad := Some s in
+    List.iteri (fun step ((o, _), mo) ->
+      let acted = (match o with `New _ -> -1 | `Free i | `Seek (i, _) | `Next i -> i) in
+      (match o, mo with
+       | `New k, ONew created ->
+         let it = impl_create src k in
+         impl := Array.append !impl [| it.h |];
+         if (it.h <> 0n) <> created then note (Printf.sprintf "step %d: iterator creation: implementation %s, model %s" step (if it.h <> 0n then "non-NULL" else "NULL") (if created then "non-NULL" else "NULL"))
+       | `Free i, _ -> if i < Array.length !impl && !impl.(i) <> 0n then (c_iter_destroy !impl.(i); !impl.(i) <- 0n); held := List.filter (fun (j, _) -> j <> i) !held
+       | `Seek (i, k), _ -> if i < Array.length !impl && !impl.(i) <> 0n then ignore (c_iter_seek !impl.(i) k); held := List.filter (fun (j, _) -> j <> i) !held
+       | `Next i, mo ->
+         held := List.filter (fun (j, _) -> j <> i) !held;
+         if i < Array.length !impl && !impl.(i) <> 0n then begin
+           (match c_iter_next_raw !impl.(i), mo with
+            | None, ONext NFail -> ()
+            | Some (kp, kl, vp, vl), ONext (NOk (ka, mkl, va, mvl, (mk, mv))) ->
+              let k = c_peek kp kl and v = c_peek vp vl in
+              if k <> string_of_nl mk || v <> string_of_nl mv || kl <> int_of_n mkl || vl <> int_of_n mvl then note (Printf.sprintf "step %d: next returns a different entry" step);
+              (match va with
+               | AFile off -> if Nativeint.sub vp base <> Nativeint.of_int (int_of_n off) then
+                   note (Printf.sprintf "step %d: the value pointer is at mapping offset %nd, the model says the value lives at file offset %d" step (Nativeint.sub vp base) (int_of_n off))
+               | AHeap (_, _) -> if vl > 0 && in_map vp then note (Printf.sprintf "step %d: the value pointer lies inside the file mapping, the model says a heap buffer (decompressed block)" step));
+              (match ka with
+               | AFile _ -> note (Printf.sprintf "step %d: the model places a key in the mapping" step)
+               | AHeap (_, _) -> if kl > 0 && in_map kp then note (Printf.sprintf "step %d: the key pointer lies inside the file mapping, the model says the iterator's own key buffer" step));
+              held := (i, (kp, kl, vp, vl, k, v)) :: !held
+            | None, _ -> note (Printf.sprintf "step %d: next fails in the implementation, succeeds in the model" step)
+            | Some _, _ -> note (Printf.sprintf "step %d: next succeeds in the implementation, fails in the model" step))
+         end
+       | _, _ -> ());
+      (* what the OTHER iterators were handed stays intact *)
+      List.iter (fun (j, (kp, kl, vp, vl, k, v)) ->
+        if j <> acted && (c_peek kp kl <> k || c_peek vp vl <> v) then
+          note (Printf.sprintf "step %d: an operation on iterator %d changed the buffers handed out to iterator %d" step acted j)) !held)
+      (List.combine ops mouts);
+    Array.iter (fun h -> if h <> 0n then c_iter_destroy h) !impl;
+    (match !bad with
+     | None -> ()
+     | Some msg ->
+       fail acc ~kind:"model_mismatch" ~what:(props ^ " memory-level iterator model (model/IterMem.v, T03m) and implementation disagree") (JO [ "table", table_json (); "what", JS msg ]);
+       if (let has sub = (let ls = String.length msg and lb = String.length sub in let rec go i = i + lb <= ls && (String.sub msg i lb = sub || go (i + 1)) in go 0) in has "changed the buffers") then
+         fail acc ~kind:"spec_violation" ~what:"[C03] buffers handed out by mtbl_iter_next were changed by an operation on another iterator of the same reader" (JO [ "table", table_json (); "what", JS msg ]))
+
 (* everything we check on one table file *)
 let check_table acc st ~props ~klass ~(table_json : unit -> json) ~(path : string) ~(file : string)
     ~(es : (string * string) list) ~with_dump ~tier =
@@ -234,6 +317,8 @@ let check_table acc st ~props ~klass ~(table_json : unit -> json) ~(path : strin
             fail acc ~kind:"model_mismatch" ~what:"[C01,C02,C03,C11] table_check (hypothesis of the reader theorems) rejects a table that was written by the writer / a legal encoder" (table_json ())
           else if index_keys rd <> [] then
             fail acc ~kind:"model_mismatch" ~what:"[C01,C11] empty table with a non-empty index" (table_json ()));
+       (* C03 memory clauses: the address-level model against the real pointers (mapping recorded at this open) *)
+       if Array.length esa <= 400 then (addr_check acc st ~props ~table_json ~src ~rd ~es:esa; if tier = "thorough" then addr_check acc st ~props ~table_json ~src ~rd ~es:esa);
        (* C01: full iteration *)
        hist Iter (nexts (Array.length esa + 2));
        if with_dump then begin
